@@ -79,6 +79,8 @@ class Interp:
 
     def set_content(self, v, new):
         if isinstance(v, VCell):
+            if isinstance(new, VMap) and isinstance(v.content, VMap) and v.content.on_key and not new.on_key:
+                new.on_key = v.content.on_key
             v.content = new
         elif isinstance(v, VFieldCell):
             self.ctx.write_field(v.ref.t, v.field, new)
@@ -121,8 +123,13 @@ class Interp:
         if isinstance(v, (VFunc, VUserFunc, VBound, VClass, VModule, VExc)):
             return z3.BoolVal(True)
         if isinstance(v, VOpaque):
-            f = z3.Function('py_truthy', U, z3.BoolSort())
-            return f(v.t)
+            f = z3.Function('py_truthy', z3.IntSort(), z3.BoolSort())
+            u = v.t
+            return z3.If(U.is_vnone(u), False,
+                         z3.If(U.is_vbool(u), U.bval(u),
+                               z3.If(U.is_vint(u), U.ival(u) != 0,
+                                     z3.If(U.is_vstr(u), z3.Length(U.sval(u)) > 0,
+                                           z3.If(U.is_vreal(u), U.rval(u) != 0, f(U.oid(u)))))))
         raise Unsupported('truth of %r' % (v,))
 
     def cond(self, v, label=''):
@@ -135,6 +142,11 @@ class Interp:
             return z3.Or(*[z3.And(g, self.eq(x, b)) for g, x in a.alts])
         if isinstance(b, VUnion):
             return z3.Or(*[z3.And(g, self.eq(a, x)) for g, x in b.alts])
+        if isinstance(a, VOpaque) or isinstance(b, VOpaque):
+            ua, ub = box(a), box(b)
+            f = z3.Function('py_eq_other', z3.IntSort(), z3.IntSort(), z3.BoolSort())
+            both_other = z3.And(U.is_vother(ua), U.is_vother(ub))
+            return z3.If(both_other, z3.Or(ua == ub, f(U.oid(ua), U.oid(ub))), ua == ub)
         ka, kb = self._seq_kind(a), self._seq_kind(b)
         if ka is not None and kb is not None and ka != kb:
             return z3.BoolVal(False)
@@ -188,14 +200,8 @@ class Interp:
             r = self.call_user(VUserFunc(m, self.repo.modules[ci.module], ci, qualname=ci.name + '.__eq__'),
                                [a, b], {}, None)
             return self.truth(r)
-        if isinstance(a, VOpaque) and isinstance(b, VOpaque):
-            f = z3.Function('py_eq', U, U, z3.BoolSort())
-            return z3.Or(a.t == b.t, f(a.t, b.t))
         if isinstance(a, VClass) and isinstance(b, VClass):
             return z3.BoolVal(a.name == b.name)
-        if isinstance(a, VOpaque) or isinstance(b, VOpaque):
-            f = z3.Function('py_eq', U, U, z3.BoolSort())
-            return f(box(a), box(b))
         kinds = lambda v: type(v).__name__
         simple = (VInt, VBool, VFloat, VStr, VBytes, VTuple, VSeq, VMap, VSet)
         if isinstance(a, simple) and isinstance(b, simple):
@@ -246,6 +252,10 @@ class Interp:
             return z3.Or(*[z3.And(g, self.is_(x, b)) for g, x in a.alts])
         if isinstance(b, VUnion):
             return z3.Or(*[z3.And(g, self.is_(a, x)) for g, x in b.alts])
+        if isinstance(a, VOpaque) and isinstance(b, VNone):
+            return U.is_vnone(a.t)
+        if isinstance(b, VOpaque) and isinstance(a, VNone):
+            return U.is_vnone(b.t)
         if isinstance(a, VNone) or isinstance(b, VNone):
             return z3.BoolVal(isinstance(a, VNone) and isinstance(b, VNone))
         if isinstance(a, VRef) and isinstance(b, VRef):
@@ -706,6 +716,7 @@ class Interp:
         self.assume_inv(spec, fr, ex)
         fr.ghost_values.update(ghosts)
         fr.ghost_values['i%d' % ordinal] = i
+        fr.ghost_values['seq%d' % ordinal] = src.term
         pre_locals = dict(fr.locals)
         pre_heap = ctx.snapshot_heap()
         mark = len(ctx.call_log)
@@ -987,6 +998,9 @@ class Interp:
         ctx = self.ctx
         obj = ctx.force(obj)
         if isinstance(obj, VRef):
+            r = self._getattr_multi(obj, name, node)
+            if r is not None:
+                return r
             cls = ctx.class_of(obj)
             ci, attr = self.repo.lookup_class_attr(cls, name)
             if attr is not None:
@@ -1004,8 +1018,7 @@ class Interp:
                 slots = self.repo.all_slots(cls)
                 if slots is None or name not in slots:
                     return self.eval(attr, Frame(None, self.repo.modules[ci.module]))
-            slots = self.repo.all_slots(cls)
-            if slots is not None and name not in slots:
+            if name not in self.repo.instance_attrs(cls):
                 self.raise_('AttributeError', line=getattr(node, 'lineno', None))
             v = ctx.read_field(obj.t, name)
             if isinstance(v, VCell):
@@ -1041,6 +1054,53 @@ class Interp:
         if isinstance(obj, VExc):
             return self.lib.exc_attr(self, obj, name, node)
         return self.lib.value_attr(self, obj, name, node)
+
+    def _getattr_multi(self, obj, name, node):
+        """attribute of an object whose class is one of several: avoid forking
+        per class when the classes agree on what the attribute is"""
+        ctx = self.ctx
+        t = simp(obj.t)
+        if z3.is_int_value(t) and t.as_long() in ctx.local_class:
+            return None
+        if t.get_id() in ctx.known_class or not obj.classes or len(obj.classes) < 2:
+            return None
+        kinds = {}
+        for c in obj.classes:
+            ci, attr = self.repo.lookup_class_attr(c, name)
+            if attr is not None and not isinstance(attr, ast.FunctionDef):
+                sl = self.repo.all_slots(c)
+                if sl is None or name not in sl:
+                    kinds[c] = ('const', attr)
+                    continue
+            if attr is not None:
+                return None
+            kinds[c] = ('field',) if name in self.repo.instance_attrs(c) else ('missing',)
+        ca = ctx.field_array('__class__')
+        cls_t = z3.Select(ca, obj.t)
+        if all(k[0] == 'const' for k in kinds.values()):
+            vals = {}
+            for c, k in kinds.items():
+                if not (isinstance(k[1], ast.Constant) and isinstance(k[1].value, str)):
+                    return None
+                vals[c] = k[1].value
+            cs = sorted(vals)
+            term = z3.StringVal(vals[cs[-1]])
+            for c in cs[:-1]:
+                term = z3.If(cls_t == self.engine.class_id(c), z3.StringVal(vals[c]), term)
+            return VStr(term)
+        if all(k[0] in ('field', 'missing') for k in kinds.values()):
+            have = [c for c, k in kinds.items() if k[0] == 'field']
+            if not have:
+                self.raise_('AttributeError', line=getattr(node, 'lineno', None))
+            if len(have) < len(kinds):
+                g = z3.Or(*[cls_t == self.engine.class_id(c) for c in have])
+                if not ctx.branch(g, 'hasattr-' + name):
+                    self.raise_('AttributeError', line=getattr(node, 'lineno', None))
+            v = ctx.read_field(obj.t, name)
+            if isinstance(v, VCell):
+                return VFieldCell(obj, name, v.kind)
+            return v
+        return None
 
     def setattr_(self, obj, name, v, node):
         ctx = self.ctx
